@@ -109,6 +109,70 @@ func serveWithTimeout(grpc bool, header string) (status int, code string, probe 
 	return
 }
 
+// serverBudgetProbes (oracle only): the server puts its own deadline on every request (a
+// middleware's context.WithTimeout, http.Server.BaseContext). The handler's deadline is then
+// the EARLIER of the two: a peer's timeout is honoured also when the server's budget is longer,
+// and the server's budget is kept when the peer's timeout is longer or absent.
+func serverBudgetProbes(c *Ctx) {
+	for _, proto := range []string{"connect", "grpc", "grpcweb"} {
+		for _, kind := range []string{"unary", "client"} {
+			for _, tc := range []struct {
+				budget time.Duration
+				peerMs int64
+			}{{time.Hour, 5000}, {2 * time.Second, 3600000}, {time.Hour, 0}, {3 * time.Second, 3000}} {
+				var remaining time.Duration
+				var has, ran bool
+				var h http.Handler
+				if kind == "unary" {
+					h = connect.NewUnaryHandler("/s/m", func(ctx context.Context, r *connect.Request[emptypb.Empty]) (*connect.Response[emptypb.Empty], error) {
+						d, ok := ctx.Deadline()
+						ran, has, remaining = true, ok, time.Until(d)
+						return connect.NewResponse(&emptypb.Empty{}), nil
+					})
+				} else {
+					h = connect.NewClientStreamHandler("/s/m", func(ctx context.Context, s *connect.ClientStream[emptypb.Empty]) (*connect.Response[emptypb.Empty], error) {
+						d, ok := ctx.Deadline()
+						ran, has, remaining = true, ok, time.Until(d)
+						return connect.NewResponse(&emptypb.Empty{}), nil
+					})
+				}
+				body := ""
+				ct := "application/proto"
+				switch {
+				case proto == "grpc":
+					ct, body = "application/grpc", "\x00\x00\x00\x00\x00"
+				case proto == "grpcweb":
+					ct, body = "application/grpc-web", "\x00\x00\x00\x00\x00"
+				case kind == "client":
+					ct, body = "application/connect+proto", "\x00\x00\x00\x00\x00"
+				}
+				req := httptest.NewRequest(http.MethodPost, "/s/m", strings.NewReader(body))
+				req.ProtoMajor, req.ProtoMinor, req.Proto = 2, 0, "HTTP/2.0"
+				req.Header.Set("Content-Type", ct)
+				if tc.peerMs > 0 {
+					if proto == "connect" {
+						req.Header.Set("Connect-Timeout-Ms", strconv.FormatInt(tc.peerMs, 10))
+					} else {
+						req.Header.Set("Grpc-Timeout", strconv.FormatInt(tc.peerMs, 10)+"m")
+					}
+				}
+				ctx, cancel := context.WithTimeout(req.Context(), tc.budget)
+				h.ServeHTTP(httptest.NewRecorder(), req.WithContext(ctx))
+				cancel()
+				want := tc.budget
+				if tc.peerMs > 0 && time.Duration(tc.peerMs)*time.Millisecond < want {
+					want = time.Duration(tc.peerMs) * time.Millisecond
+				}
+				desc := fmt.Sprintf("%s %s call, server budget %v on the request context, peer timeout %d ms", proto, kind, tc.budget, tc.peerMs)
+				c.Count("tmo-server-budget")
+				if !ran || !has || remaining > want || remaining < want-2*time.Second {
+					c.Fail("tmo-server-budget", desc, fmt.Sprintf("ran=%v deadline=%v remaining=%v", ran, has, remaining.Round(time.Millisecond)), fmt.Sprintf("the handler's deadline must be the earlier of the two (about %v away)", want))
+				}
+			}
+		}
+	}
+}
+
 type captureClient struct{ header http.Header }
 
 func (c *captureClient) Do(req *http.Request) (*http.Response, error) {
@@ -484,6 +548,7 @@ func streamTimeout(c *Ctx) {
 		connectEncodeProbe(c, d, true)
 	}
 	timeoutReuseProbes(c)
+	serverBudgetProbes(c)
 	for i := 0; i < 200; i++ {
 		d := time.Duration(r.U64() >> uint(1+r.Intn(50)))
 		if d < 2*time.Millisecond {
